@@ -34,6 +34,16 @@ def run(ctx):
     if rm.violated != "Correct":
         raise CheckBroken("relaxed cap not rejected: %r" % rm)
     ctx.add("spec_mutants_rejected", 1)
+    # 1b. the same closure argument symbolically (Apalache): IndInit => IndInv, IndInv /\ Next => IndInv' with the errors as arbitrary integers within the caps
+    if thorough or os.environ.get("VERIF_APALACHE") == "1":
+        from vlib.common import run as sh, SPEC
+        rc, out, err = sh(["apalache-mc", "check", "--init=IndInit", "--inv=IndInv", "--length=1", "--out-dir=" + os.path.join(ctx.dir, "apalache"), os.path.join(SPEC, "MachineP_apa.tla")], timeout=1500, cwd=ctx.dir)
+        if "The outcome is: NoError" in out:
+            ctx.cov["apalache_inductive_step"] = "NoError (IndInit/IndInv, length 1)"
+        elif "The outcome is: Error" in out:
+            raise CheckBroken("Apalache refutes the inductive invariant of MachineP_apa: %s" % out[-800:])
+        else:
+            ctx.note("apalache did not conclude (rc=%s); the TLC fixpoint above stands on its own" % rc)
     # 2. programs: TLC-generated behaviours + structured netlists, on the real library
     gen = gen_programs(ctx, 6 if thorough else 2, 400 if thorough else 150, 6)
     cfgs = [(be, "optim") for be in BACKENDS] + [("spqlios-fma", "debug"), ("fftw", "debug")] if thorough else [("spqlios-fma", "optim")]
